@@ -242,3 +242,52 @@ func H20_box() {
 		}
 	}
 }
+
+// H20_box_overflow: children whose preferred extents overflow the view (fill 0,
+// integer arithmetic only): the non-empty child rectangles stay pairwise
+// disjoint and inside the parent's view.
+func H20_box_overflow() {
+	vsymSetenv("VSYM_CLOCK", "concrete")
+	n := 2 + vsymChoice("children", 2)
+	horiz := vsymChoice("orient", 2) == 0
+	lim := vsymParam("maxsize", 40)
+	pw, ph := vsymInt("pw"), vsymInt("ph")
+	vsymAssume(vsymAnd(vsymAnd(pw >= 0, pw <= lim), vsymAnd(ph >= 0, ph <= lim)))
+	parent := &h20Rec{w: pw, h: ph}
+	var b *BoxLayout
+	if horiz {
+		b = NewBoxLayout(Horizontal)
+	} else {
+		b = NewBoxLayout(Vertical)
+	}
+	b.SetView(parent)
+	for i := 0; i < n; i++ {
+		sz := vsymInt("size")
+		vsymAssume(vsymAnd(sz >= 0, sz <= lim))
+		b.AddWidget(&h20Widget{w: sz, h: sz}, 0)
+	}
+	b.Resize()
+	avail := pw
+	if !horiz {
+		avail = ph
+	}
+	type iv struct{ lo, hi int }
+	var rects []iv
+	for _, c := range b.cells {
+		v := c.view
+		lo, ext := v.physx, v.width
+		if !horiz {
+			lo, ext = v.physy, v.height
+		}
+		rects = append(rects, iv{lo, lo + ext})
+	}
+	for i := range rects {
+		ne := rects[i].hi > rects[i].lo
+		vsymAssert(vsymImplies(ne, vsymAnd(rects[i].lo >= 0, rects[i].hi <= avail)), "a non-empty child rectangle lies inside the parent's view, also when the children overflow it")
+		for j := i + 1; j < len(rects); j++ {
+			nj := rects[j].hi > rects[j].lo
+			disjoint := vsymOr(rects[i].hi <= rects[j].lo, rects[j].hi <= rects[i].lo)
+			vsymAssert(vsymImplies(vsymAnd(ne, nj), disjoint), "non-empty child rectangles are pairwise disjoint, also when the children overflow the view")
+		}
+	}
+}
